@@ -567,7 +567,15 @@ func c11GenGroups(r *vh.Rand, malformed bool) [][3]uint32 {
 		gs = append(gs, [3]uint32{uint32(s), uint32(e), gid})
 		cur = e + 1
 	}
-	if malformed && len(gs) > 1 {
+	if malformed && len(gs) > 2 && r.Chance(30) {
+		// kept A, B nested in A (dropped), C starting inside A: C must be dropped too
+		i := r.Range(2, len(gs)-1)
+		a := gs[i-2]
+		if a[1] > a[0] && gs[i][1]-a[1] < 300 {
+			gs[i-1] = [3]uint32{a[0], a[0] + (a[1]-a[0])/2, gs[i-1][2]}
+			gs[i][0] = gs[i-1][1] + 1
+		}
+	} else if malformed && len(gs) > 1 {
 		i := r.Range(1, len(gs)-1)
 		switch r.Intn(3) {
 		case 0:
@@ -585,10 +593,59 @@ func c11GenGroups(r *vh.Rand, malformed bool) [][3]uint32 {
 	return gs
 }
 
+// c11GridGroups: sanitizeCmapGroups (newCmap12/13) on every triple of groups whose end points lie on a small grid:
+// nested, inverted (end < start), abutting, shared end points, overlapping after a dropped group ... (thorough: all
+// 4^6 triples; quick: a sample plus the directed shapes "kept A, dropped B, C overlapping A").
+func c11GridGroups(r *vh.Rand, tier string, emit func(any)) {
+	grid := []uint32{10, 11, 12, 14}
+	mk := func(code int, fmt13 bool) c11CmapInput {
+		in := c11CmapInput{Kind: "map", Fmt: 12, Remap: -1}
+		if fmt13 {
+			in.Fmt = 13
+		}
+		for k := 0; k < 3; k++ {
+			a, b := grid[code%4], grid[code/4%4]
+			code /= 16
+			in.Groups = append(in.Groups, [3]uint32{a, b, uint32(100 * (k + 1))})
+		}
+		in.Probes = []int64{9, 10, 11, 12, 13, 14, 15}
+		return in
+	}
+	if tier == "quick" {
+		for j := 0; j < 220; j++ {
+			emit(mk(r.Intn(4096), j%5 == 0))
+		}
+	} else {
+		for code := 0; code < 4096; code++ {
+			emit(mk(code, code%5 == 0))
+		}
+	}
+	// directed: A kept, B dropped (nested in A or inverted), C overlapping A, then a regular group
+	for j := 0; j < 40; j++ {
+		a0 := uint32(r.Range(20, 2000))
+		a1 := a0 + uint32(r.Range(4, 60))
+		b0 := a0 + uint32(r.Range(0, 2))
+		b1 := b0 + uint32(r.Range(0, 1))
+		if r.Bool() { // inverted
+			b0, b1 = b1+1, b0
+		}
+		c0 := b1 + 1 + uint32(r.Range(0, 2))
+		if b1 < a0 {
+			c0 = a0 + uint32(r.Range(1, 3))
+		}
+		c1 := a1 + uint32(r.Range(0, 30))
+		in := c11CmapInput{Kind: "map", Fmt: 12 + j%2, Remap: -1,
+			Groups: [][3]uint32{{a0, a1, 10}, {b0, b1, 100}, {c0, c1, 200}, {c1 + 40, c1 + 50, 300}}}
+		in.Probes = []int64{int64(a0) - 1, int64(a0), int64(b0), int64(b1), int64(c0), int64(a1), int64(a1) + 1, int64(c1), int64(c1) + 1, int64(c1) + 40}
+		emit(in)
+	}
+}
+
 func c11CmapGen(r *vh.Rand, tier string, n int, emit func(any)) {
+	c11GridGroups(r, tier, emit)
 	for i := 0; i < n; i++ {
 		in := c11CmapInput{Kind: "map", Remap: -1}
-		malformed := r.Chance(6)
+		malformed := r.Chance(18) // overlapping, unsorted, shared end points: dropped by the sanitizing constructors
 		var bounds []int64
 		switch k := r.Intn(20); {
 		case k < 8:
@@ -668,8 +725,48 @@ func c11CmapGen(r *vh.Rand, tier string, n int, emit func(any)) {
 		for _, g := range in.Groups {
 			bounds = append(bounds, int64(g[0]), int64(g[1]))
 		}
-		if (in.Fmt == 4 || in.Fmt == 12) && r.Chance(12) {
-			in.Remap = r.Intn(3)
+		if r.Chance(14) {
+			in.Remap = 0 // symbol
+			// the legacy arabic remapers walk 0..0xFEFC: the model costs seconds per case, keep them rare
+			if (tier != "quick" && r.Chance(8)) || (tier == "quick" && i%200 == 7) {
+				in.Remap = 1 + r.Intn(2)
+			}
+		}
+		if in.Remap >= 0 && r.Chance(75) {
+			// give the remaper something to reach: a segment / group / entry in the private use block it maps to
+			base := []int{0xf020, 0xf120, 0xf220}[in.Remap] + r.Intn(0x60)
+			last := base + r.Range(0, 40)
+			switch in.Fmt {
+			case 4:
+				seg := c11Seg4{Start: uint16(base), End: uint16(last), Delta: c11U16(r)}
+				if r.Chance(40) {
+					seg.HasIdx = true
+					seg.Indexes = make([]uint16, last-base+1)
+					for j := range seg.Indexes {
+						seg.Indexes[j] = uint16(r.Intn(4)) // with missing-glyph entries
+					}
+				}
+				n := len(in.Segs)
+				if n > 0 && in.Segs[n-1].Start == 0xffff {
+					in.Segs = append(in.Segs[:n-1:n-1], seg, in.Segs[n-1])
+				} else {
+					in.Segs = append(in.Segs, seg)
+				}
+			case 12, 13:
+				in.Groups = append(in.Groups, [3]uint32{uint32(base), uint32(last), uint32(r.Intn(0x10000))})
+			case 6:
+				in.First = int64(base)
+			case 0:
+				dup := false
+				for _, p := range in.M {
+					dup = dup || p[0] == int64(base)
+				}
+				if !dup {
+					in.M = append(in.M, [2]int64{int64(base), int64(r.Range(1, 255))})
+					sortPairs(in.M)
+				}
+			}
+			bounds = append(bounds, int64(base), int64(last), int64(base-0xf000), int64(last-0xf000))
 		}
 		probes := []int64{0, 0xffff, 0x10000, -1, 0x10ffff, 0x110000}
 		for _, b := range bounds {
@@ -768,7 +865,7 @@ func c11CmapRun(o *vh.Out, inAny any) {
 				o.Count("seg4=delta")
 			}
 		}
-		cm = font.VerifCmap4(segs)
+		cm = font.VerifSanitizeCmap4(font.VerifCmap4(segs)) // as ProcessCmap holds it
 		desc = vh.App("D4", vh.List(st))
 	case 12, 13:
 		gt := make([]string, len(in.Groups))
@@ -776,10 +873,10 @@ func c11CmapRun(o *vh.Out, inAny any) {
 			gt[i] = vh.Tuple(vh.Z(int64(g[0])), vh.Z(int64(g[1])), vh.Z(int64(g[2])))
 		}
 		if in.Fmt == 12 {
-			cm = font.VerifCmap12(in.Groups)
+			cm = font.VerifNewCmap12(in.Groups)
 			desc = vh.App("D12", vh.List(gt))
 		} else {
-			cm = font.VerifCmap13(in.Groups)
+			cm = font.VerifNewCmap13(in.Groups)
 			desc = vh.App("D13", vh.List(gt))
 		}
 	case 6:
@@ -817,8 +914,12 @@ func c11CmapRun(o *vh.Out, inAny any) {
 				panic("iterator does not stop")
 			}
 		}
-		if in.Fmt == 0 {
-			sortPairs(iter)
+		if in.Fmt == 0 { // Go iterates the map of cmap0 in an unspecified order; a remaper appends its runes afterwards
+			n := len(in.M)
+			if n > len(iter) {
+				n = len(iter)
+			}
+			sortPairs(iter[:n])
 		}
 		nIter = len(iter)
 		var iterLk []string // only the positions where Lookup does not return the enumerated glyph
